@@ -169,7 +169,7 @@ def gen_scenario(rng, **opts):
                         okey += 1
                     else:
                         ok, tk = rng.choice(mine)
-                        tg = "t%d" % tk if rng.random() < 0.4 else "o%d" % ok
+                        tg = "t%d" % tk
                         if kind == "cancel":
                             acts.append(["cancel", tg, rng.choice([None, None, None, gen_size(rng, dyadic), 0.5, 100.0]), rng.random() < 0.03])
                         elif kind == "update":
